@@ -454,10 +454,14 @@ class Executor(object):
         if t == "set":
             bad = B.same_set(ref[1], got[1])
         elif t == "num":
-            if abs(got[1] - ref[1]) > 1e-9 * max(1.0, abs(ref[1])):
+            if not all(isinstance(x, (int, float)) and not isinstance(x, bool) for x in (got[1], ref[1])):
+                bad = "not a number: %r vs %r" % (got[1], ref[1])
+            elif abs(got[1] - ref[1]) > 1e-9 * max(1.0, abs(ref[1])):
                 bad = "%r vs %r" % (got[1], ref[1])
         elif t == "nums":
-            if len(got[1]) != len(ref[1]) or any(abs(x - y) > 1e-9 * max(1.0, abs(y)) for x, y in zip(got[1], ref[1])):
+            if not all(isinstance(x, (int, float)) and not isinstance(x, bool) for x in list(got[1]) + list(ref[1])):
+                bad = "not numbers: %r vs %r" % (got[1], ref[1])
+            elif len(got[1]) != len(ref[1]) or any(abs(x - y) > 1e-9 * max(1.0, abs(y)) for x, y in zip(got[1], ref[1])):
                 bad = "%r vs %r" % (got[1], ref[1])
         elif t == "str":
             # repr shows representation details (set order, first vertex) that legitimately differ between two
